@@ -1,8 +1,10 @@
 From Coq Require Extraction ExtrOcamlBasic.
-From OxiVerif Require Import Base.Conv IO.Dddmp.
+From OxiVerif Require Import Base.Conv IO.Dddmp IO.DddmpFile.
 Extraction Language OCaml.
 Extraction "model.ml" conv_anchor Dddmp.import_file Dddmp.import_bin Dddmp.import_ascii
   Dddmp.export_nodes Dddmp.encode_7bit Dddmp.decode_7bit Dddmp.escape Dddmp.unescape_all
   Dddmp.eval_root Dddmp.parse_edge_list Dddmp.export_var_names Dddmp.sanitize_root_names
   Dddmp.write_replacing_control Dddmp.replace_space_and_control Dddmp.trim Dddmp.dec
-  Dddmp.st_store Dddmp.st_nodes Dddmp.split_node_code Dddmp.export_ascii_nodes.
+  Dddmp.st_store Dddmp.st_nodes Dddmp.split_node_code Dddmp.export_ascii_nodes
+  DddmpFile.load_header DddmpFile.import_whole DddmpFile.import_whole_guarded
+  DddmpFile.print_header DddmpFile.header_of DddmpFile.utf8_lossy.
